@@ -179,8 +179,15 @@ pub fn hdr_value_strategy() -> BoxedStrategy<Bs> {
 
 pub fn entity_headers_strategy() -> BoxedStrategy<Vec<(String, Bs)>> {
     prop_oneof![
-        2 => Just(vec![]),
-        3 => vec((proptest::sample::select(HDR_NAMES).prop_map(|s| s.to_string()), hdr_value_strategy()), 0..=4),
+        8 => Just(vec![]),
+        12 => vec((proptest::sample::select(HDR_NAMES).prop_map(|s| s.to_string()), hdr_value_strategy()), 0..=4),
+        // the *number* of headers and the length of a value: dozens of names (some repeated), a value
+        // of a few KB
+        1 => vec(((0u8..48).prop_map(|i| format!("x-h{i}")), hdr_value_strategy()), 5..=70),
+        1 => (vec((proptest::sample::select(HDR_NAMES).prop_map(|s| s.to_string()), hdr_value_strategy()), 0..=3), 201usize..5000).prop_map(|(mut v, n)| {
+            v.push(("x-long-value".to_string(), Bs(vec![b'L'; n])));
+            v
+        }),
     ]
     .boxed()
 }
@@ -405,6 +412,8 @@ pub fn date_value(m: Mtime) -> BoxedStrategy<Bs> {
         1 => Just(base.saturating_sub(86_400)),
         1 => Just(base + 86_400),
         1 => Just(0u64),
+        // seconds that do not fit 31 / 32 bits, and the last representable year
+        1 => proptest::sample::select(&[(1u64 << 31) - 1, 1 << 31, (1 << 32) - 1, 1 << 32, (1 << 32) + 784_111_777, 253_402_300_799][..]),
     ]
     .prop_map(|s| Bs::s(&http_date(s)))
     .boxed()
